@@ -2,6 +2,7 @@ import Tmv.Lemmas.PubSub
 import Tmv.Lemmas.Index
 import Tmv.Lemmas.IndexExact
 import Tmv.Lemmas.BlockIndex
+import Tmv.Lemmas.BlockExact
 import Tmv.Model.BlockIndex
 /-! # C19 — Subscribers get exactly their matching events; searches return exact matches
 Property theorems only (pub/sub part).  The model is `Tmv.PubSub` (libs/pubsub as repaired by the
@@ -170,6 +171,199 @@ example :
         (fun r => (r.content.map (·.1), r.status)) = [([1, 2], .active)] := by
   decide
 
+/-! ### corners: capacity, unsubscribe, re-subscribe after a cancellation -/
+
+/-- does the op take the pair (c, q) out of the server's registry? -/
+def isUnsubOf (c q : Str) : PsOp → Bool
+  | .unsub c' q' => c' == c && q' == q
+  | .unsubAll c' => c' == c
+  | _ => false
+
+/-- **Re-subscribing after a cancellation is refused until the client unsubscribes.**  After a
+successful `Subscribe(c, q)` and ANY history in which `c` neither unsubscribes `q` nor all — in
+particular one in which the server cancelled the subscription for being out of capacity — the
+pair is still registered (`Server.subscriptions` is only updated by Unsubscribe/UnsubscribeAll),
+so a new `Subscribe(c, q)` with any capacity answers `ErrAlreadySubscribed` and changes nothing. -/
+theorem resubscribe_refused_until_unsubscribe (s : State) (c q : Str) (ast : Query) (cap : Nat)
+    (post : List PsOp) (hsub : (step s (.sub c q ast cap)).2 = .ok)
+    (hpost : ∀ o ∈ post, isUnsubOf c q o = false) (ast' : Query) (cap' : Nat) :
+    let s' := run (step s (.sub c q ast cap)).1 post
+    step s' (.sub c q ast' cap') = (s', .errAlready) := by
+  intro s'
+  have hreg0 : (step s (.sub c q ast cap)).1.registry.contains (c, q) = true := by
+    simp only [step] at hsub ⊢
+    split at hsub
+    · cases hsub
+    · rename_i h
+      have h' : ¬ (c, q) ∈ s.registry := by simpa using h
+      simp [h']
+  have key : ∀ (post : List PsOp) (s : State), s.registry.contains (c, q) = true →
+      (∀ o ∈ post, isUnsubOf c q o = false) → (run s post).registry.contains (c, q) = true := by
+    intro post
+    induction post with
+    | nil => intro s h _; exact h
+    | cons o rest ih =>
+      intro s h hp
+      apply ih (step s o).1 _ (fun o' ho' => hp o' (List.mem_cons_of_mem _ ho'))
+      have ho := hp o List.mem_cons_self
+      cases o with
+      | sub c' q' a' k' =>
+        simp only [step]; split
+        · exact h
+        · simp only [List.contains_eq_mem, List.mem_append, decide_eq_true_eq] at h ⊢
+          exact Or.inl h
+      | unsub c' q' =>
+        simp only [step]; split
+        · exact h
+        · have hne : ¬ (c' = c ∧ q' = q) := by simpa [isUnsubOf] using ho
+          simp only [List.contains_eq_mem, decide_eq_true_eq, List.mem_filter] at h ⊢
+          refine ⟨h, ?_⟩
+          simp only [bne_iff_ne, ne_eq, Prod.mk.injEq]
+          exact fun e => hne ⟨e.1.symm, e.2.symm⟩
+      | unsubAll c' =>
+        simp only [step]; split
+        · exact h
+        · have hne : ¬ c' = c := by simpa [isUnsubOf] using ho
+          simp only [List.contains_eq_mem, decide_eq_true_eq, List.mem_filter] at h ⊢
+          refine ⟨h, ?_⟩
+          simp only [bne_iff_ne, ne_eq]
+          exact fun e => hne e.symm
+      | pub m => exact h
+      | read c' q' => exact h
+  have := key post _ hreg0 hpost
+  simp only [step]
+  rw [if_pos this]
+
+/-- **Unsubscribe (or UnsubscribeAll) re-opens the pair.**  Whenever the pair is registered —
+whether its subscription is still active or was cancelled by the server — `Unsubscribe(c, q)` and
+`UnsubscribeAll(c)` answer ok, and a `Subscribe(c, q)` issued next succeeds; by
+`once_in_order_or_cancelled` the new subscription object then receives exactly the publications
+from that point on. -/
+theorem unsubscribe_then_resubscribe (s : State) (c q : Str) (ast : Query) (cap : Nat)
+    (hreg : s.registry.contains (c, q) = true) :
+    (step s (.unsub c q)).2 = .ok ∧ (step (step s (.unsub c q)).1 (.sub c q ast cap)).2 = .ok ∧
+    (step s (.unsubAll c)).2 = .ok ∧ (step (step s (.unsubAll c)).1 (.sub c q ast cap)).2 = .ok := by
+  have hany : s.registry.any (·.1 == c) = true := by
+    simp only [List.contains_eq_mem, decide_eq_true_eq] at hreg
+    simp only [List.any_eq_true]
+    exact ⟨(c, q), hreg, by simp⟩
+  have h1 : ((s.registry.filter (· != (c, q))).contains (c, q)) = false := by
+    simp [List.contains_eq_mem, List.mem_filter]
+  have h2 : ((s.registry.filter (·.1 != c)).contains (c, q)) = false := by
+    simp [List.contains_eq_mem, List.mem_filter]
+  have hmem : (c, q) ∈ s.registry := by simpa using hreg
+  have hany' : ∃ x ∈ s.registry, x.1 = c := ⟨(c, q), hmem, rfl⟩
+  refine ⟨by simp [step, hmem], ?_, by simp only [step, hany, Bool.not_true, Bool.false_eq_true, if_false], ?_⟩
+  · simp only [step, hreg, Bool.not_true, Bool.false_eq_true, if_false, h1]
+  · simp only [step, hany, Bool.not_true, Bool.false_eq_true, if_false, h2]
+
+/-- **An unbuffered subscription is never cancelled for capacity, and a buffered one keeps its
+capacity.**  For the subscription object created by a successful `Subscribe(c, q, cap)` /
+`SubscribeUnbuffered` (`cap = 0`), after ANY later history without a re-subscription of the pair:
+its capacity is still `cap`, at most `cap` messages are buffered when `cap > 0`, and when
+`cap = 0` its status is never `cancelled outOfCapacity` — so (with `once_in_order_or_cancelled`)
+an unbuffered subscriber such as the indexer service gets EVERY matching publication until it
+unsubscribes itself. -/
+theorem capacity_respected (s : State) (c q : Str) (ast : Query) (cap : Nat) (post : List PsOp)
+    (hsub : (step s (.sub c q ast cap)).2 = .ok)
+    (hpost : ∀ o ∈ post, isSub c q o = false) :
+    ∃ r, (run (step s (.sub c q ast cap)).1 post).recs.filter (·.isFor c q) = [r] ∧
+      r.cap = cap ∧ (cap > 0 → r.queue.length ≤ cap) ∧
+      (cap = 0 → r.status ≠ .cancelled .outOfCapacity) := by
+  -- the invariant carried by every step
+  let R : Rec → Rec → Prop := fun r r' =>
+    r'.cap = r.cap ∧ ((r.cap > 0 → r.queue.length ≤ r.cap) → (r'.cap > 0 → r'.queue.length ≤ r'.cap)) ∧
+    (r.cap = 0 → r.status ≠ .cancelled .outOfCapacity → r'.status ≠ .cancelled .outOfCapacity)
+  have hrefl : ∀ r, R r r := fun r => ⟨rfl, fun h => h, fun _ h => h⟩
+  have hcancel : ∀ w r, w = Reason.unsubscribed → R r (cancel w r) := by
+    intro w r hw
+    unfold cancel
+    split
+    · refine ⟨rfl, fun h => h, fun _ _ => ?_⟩
+      simp [hw]
+    · exact hrefl r
+  have hdeliver : ∀ m r, R r (deliver m r) := by
+    intro m r
+    unfold deliver
+    split
+    · exact hrefl r
+    · split
+      · split
+        · rename_i h0
+          refine ⟨rfl, fun _ h => ?_, fun _ h => h⟩
+          simp only at h; omega
+        · split
+          · rename_i hlt
+            refine ⟨rfl, fun _ _ => ?_, fun _ h => h⟩
+            simp only [List.length_append, List.length_singleton]; omega
+          · rename_i h0 _
+            refine ⟨rfl, fun h => h, fun hc _ => ?_⟩
+            exact absurd hc h0
+      · exact hrefl r
+  have hread : ∀ r, R r (readRec r).1 := by
+    intro r
+    unfold readRec
+    split
+    · rename_i m rest hq
+      refine ⟨rfl, fun h hc => ?_, fun _ h => h⟩
+      have := h hc
+      rw [hq] at this
+      simp only [List.length_cons] at this ⊢
+      omega
+    · split <;> exact hrefl r
+  -- the fresh record
+  have h0 : ∃ r0, (step s (.sub c q ast cap)).1.recs.filter (·.isFor c q) = [r0] ∧
+      r0.cap = cap ∧ r0.queue = [] ∧ r0.status = .active := by
+    simp only [step] at hsub ⊢
+    split at hsub
+    · cases hsub
+    · rename_i hreg
+      simp only [hreg, if_false, Bool.false_eq_true]
+      refine ⟨{ client := c, qstr := q, query := ast, cap := cap, queue := [], taken := [],
+                status := .active }, ?_, rfl, rfl, rfl⟩
+      simp only [List.filter_append, List.filter_filter]
+      have : List.filter (fun x : Rec => x.isFor c q && !x.isFor c q) s.recs = [] := by
+        apply List.filter_eq_nil_iff.mpr
+        intro x _; simp
+      rw [this]
+      simp [Rec.isFor]
+  obtain ⟨r0, hf0, hc0, hq0, ha0⟩ := h0
+  have key : ∀ (post : List PsOp) (s : State) (r : Rec),
+      s.recs.filter (·.isFor c q) = [r] → (∀ o ∈ post, isSub c q o = false) →
+      ∃ r', (run s post).recs.filter (·.isFor c q) = [r'] ∧ R r r' := by
+    intro post
+    induction post with
+    | nil => intro s r hf _; exact ⟨r, hf, hrefl r⟩
+    | cons o rest ih =>
+      intro s r hf hp
+      obtain ⟨r1, hf1, h1⟩ := step_rec_gen R hrefl (fun r => hcancel _ r rfl)
+        hdeliver hread c q s r o hf (hp o List.mem_cons_self)
+      obtain ⟨r', hf', h2⟩ := ih (step s o).1 r1 hf1 (fun o' ho' => hp o' (List.mem_cons_of_mem _ ho'))
+      refine ⟨r', hf', ?_⟩
+      obtain ⟨a1, a2, a3⟩ := h1
+      obtain ⟨b1, b2, b3⟩ := h2
+      exact ⟨b1.trans a1, fun h => b2 (a2 h), fun hc hs => b3 (by rw [a1]; exact hc) (a3 hc hs)⟩
+  obtain ⟨r', hf', e1, e2, e3⟩ := key post _ r0 hf0 hpost
+  refine ⟨r', hf', e1.trans hc0, ?_, ?_⟩
+  · intro hpos
+    have := e2 (fun _ => by rw [hq0]; simp) (by rw [e1, hc0]; exact hpos)
+    rw [e1, hc0] at this; exact this
+  · intro hz
+    exact e3 (by rw [hc0]; exact hz) (by rw [ha0]; simp)
+
+/-- non-vacuity of the two corner theorems, on the out-of-capacity scenario: capacity 1, two
+matching publications, no read → cancelled; re-subscribe refused; unsubscribe; re-subscribe
+accepted and the fresh subscription gets publication 3 only -/
+example :
+    let c : Str := [1]; let q : Str := [2]; let key : Str := [97, 46, 98]
+    let ast : Query := [{ key := key, op := .exists, operand := .none }]
+    let ev : Events := [(key, [[120]])]
+    let ops : List PsOp := [.sub c q ast 1, .pub (1, ev), .pub (2, ev), .sub c q ast 3, .read c q, .read c q,
+      .unsub c q, .sub c q ast 3, .pub (3, ev), .read c q, .read c q]
+    answers c State.init ops =
+      [.ok, .errAlready, .msg 1, .cancelled .outOfCapacity, .ok, .ok, .msg 3, .empty] := by
+  decide
+
 /-! ## the kv tx index -/
 section index
 open Tmv.Index
@@ -232,13 +426,16 @@ What `CleanQuery` excludes, each with its witness theorem / known finding: the k
 `EXISTS` on a key without '.' (`search_exists_undotted_fails`), two bounds of the same side on one
 key, or both bounds on a key that has several values in one tx (`search_range_merge_fails`),
 non-canonical decimal values under a numerically compared key, numbers beyond int64 and
-`k > MaxInt64`; and by the stated exclusions of the model: float, TIME and DATE operands. -/
+`k > MaxInt64`; and by the stated exclusions of the model: float, TIME and DATE operands.
+ORDER: the code builds the result by ranging over a Go map (`filteredHashes`), so the order of
+the returned txs is unspecified; what is guaranteed, and stated, is that no tx is returned twice
+(`hs.Nodup`) — together with the membership clause the result is determined up to permutation. -/
 theorem search_exact_clean (hist : List TxResult) (hc : CleanHist H hist) (hres : NoReserved hist)
     (q : Query) (hq : CleanQuery hist q) :
-    ∃ hs, search (addBatch H [] hist) q = .hashes hs ∧
+    ∃ hs, search (addBatch H [] hist) q = .hashes hs ∧ hs.Nodup ∧
       ∀ x, x ∈ hs ↔ ∃ r ∈ hist, H r.tx = x ∧ «matches» q (eventsOf r) = .ok true := by
-  obtain ⟨L, eL, mL⟩ := search_clean_compute H hc hq
-  refine ⟨L, eL, ?_⟩
+  obtain ⟨L, eL, nL, mL⟩ := search_clean_compute H hc hq
+  refine ⟨L, eL, nL, ?_⟩
   intro x
   rw [mL]
   have hpart : ∀ (P : Cond → Prop), (∀ c ∈ q, P c) ↔ (∀ c ∈ rangeConds q, P c) ∧ (∀ c ∈ otherConds q, P c) := by
@@ -494,6 +691,154 @@ theorem block_search_by_height (bs : List Block) (q : Query) (n : Nat)
   refine ⟨?_, block_has_exact H bs n⟩
   simp only [BlockIndex.search, hok, hh, Bool.not_true, Bool.false_eq_true, if_false]
   split <;> rfl
+
+/-- **Block search exactness on clean input** (over the orderedcode tuple model: `orderedcode.Append`
+assumed an injective, prefix-free, order-preserving tuple encoding).
+For EVERY history of committed blocks in which accepted blocks have distinct heights, and EVERY
+query satisfying `CleanQueryB` — any non-empty conjunction, in any order, of `k = 's'`, `k = n`,
+`k EXISTS`, `k CONTAINS 's'` and range conditions (several keys, one- or two-sided, mixed with the
+others; `block.height` itself under `EXISTS` and ranges) — `BlockerIndexer.Search` returns exactly
+the heights of the accepted blocks whose event map (indexed BeginBlock/EndBlock attributes plus
+`block.height`) satisfies `Query.Matches`, and returns them in strictly ASCENDING order (the
+code's final `sort.Slice`), each once.
+Excluded by `CleanQueryB`, as for the tx index: `EXISTS` on an undotted key, two bounds of one side
+on a key or both bounds on a key with several values in one block, non-canonical decimals,
+numbers beyond int64 and `k > MaxInt64`; specific to the block index: `block.height = n` (the
+shortcut: `block_search_by_height`, `block_height_shortcut_fails`) and string conditions on
+`block.height` (known finding `string-operand-on-block-height`); floats, TIME, DATE. No separator
+exclusions are needed here: the keys are tuples. -/
+theorem block_search_exact_clean (bs : List Block) (hd : BlockIndex.DistinctHeights bs)
+    (q : Query) (hq : BlockIndex.CleanQueryB bs q) :
+    ∃ hs, BlockIndex.search (run H {} bs).bdb q = .heights hs ∧ hs.Pairwise (· < ·) ∧
+      ∀ x, x ∈ hs ↔ ∃ b ∈ bs, BlockIndex.acceptable b = true ∧ b.height = x ∧
+        «matches» q (evOf (BlockIndex.attrsB b)) = .ok true := by
+  rw [BlockIndex.run_bdb_eq]
+  obtain ⟨L, eL, sL, mL⟩ := BlockIndex.search_clean_compute_B bs q hq
+  refine ⟨L, eL, sL, ?_⟩
+  intro x
+  rw [mL]
+  have hpart : ∀ (P : Cond → Prop), (∀ c ∈ q, P c) ↔ (∀ c ∈ rangeConds q, P c) ∧ (∀ c ∈ otherConds q, P c) := by
+    intro P
+    constructor
+    · intro h
+      exact ⟨fun c hc' => h c (List.mem_filter.mp hc').1, fun c hc' => h c (List.mem_filter.mp hc').1⟩
+    · rintro ⟨h1, h2⟩ c hcq
+      by_cases hr : isRangeOp c.op = true
+      · exact h1 c (List.mem_filter.mpr ⟨hcq, hr⟩)
+      · exact h2 c (List.mem_filter.mpr ⟨hcq, by simpa using hr⟩)
+  have hper : ∀ b ∈ bs, BlockIndex.acceptable b = true →
+      (((∀ W ∈ lookForRanges q, ∃ m, (W.key, dec m) ∈ BlockIndex.attrsB b ∧ inR W m = true) ∧
+       (∀ c ∈ otherConds q, holdsA c (BlockIndex.attrsB b) = true)) ↔
+      «matches» q (evOf (BlockIndex.attrsB b)) = .ok true) := by
+    intro b hb ha
+    have hne : ∃ kv, kv ∈ BlockIndex.attrsB b :=
+      ⟨_, (BlockIndex.mem_attrsB b _).mpr (Or.inr rfl)⟩
+    rw [matches_A q _ hne (fun c hc => (hq.conds c hc).1) (fun c hc => hq.canon c hc b hb ha), hpart]
+    have spec := lookForRanges_spec q
+    have hri := range_item q (fun c hc => (hq.conds c hc).1) hq.oneLower hq.oneUpper
+      (BlockIndex.attrsB b) (fun c hc => hq.canon c hc b hb ha) (fun k h2 => hq.single k h2 b hb ha)
+    constructor
+    · rintro ⟨hR, hC⟩
+      refine ⟨?_, hC⟩
+      intro c hcr
+      obtain ⟨W, hW, hk⟩ := spec.covers c hcr
+      exact (hri W hW).mp (hR W hW) c hcr hk.symm
+    · rintro ⟨hR, hC⟩
+      exact ⟨fun W hW => (hri W hW).mpr (fun c hcr _ => hR c hcr), hC⟩
+  constructor
+  · rintro ⟨hR, hC⟩
+    have hex : ∃ b ∈ bs, BlockIndex.acceptable b = true ∧ b.height = x := by
+      obtain ⟨c0, hc0⟩ := List.exists_mem_of_ne_nil q hq.nonempty
+      by_cases hr0 : isRangeOp c0.op = true
+      · obtain ⟨W, hW, _⟩ := (lookForRanges_spec q).covers c0 (List.mem_filter.mpr ⟨hc0, hr0⟩)
+        obtain ⟨b, hb, ha, hx, _⟩ := hR W hW
+        exact ⟨b, hb, ha, hx⟩
+      · obtain ⟨b, hb, ha, hx, _⟩ := hC c0 (List.mem_filter.mpr ⟨hc0, by simpa using hr0⟩)
+        exact ⟨b, hb, ha, hx⟩
+    obtain ⟨b, hb, ha, hx⟩ := hex
+    refine ⟨b, hb, ha, hx, (hper b hb ha).mp ⟨?_, ?_⟩⟩
+    · intro W hW
+      obtain ⟨b', hb', ha', hx', h⟩ := hR W hW
+      have : b' = b := hd b' hb' b hb ha' ha (hx'.trans hx.symm)
+      rw [← this]; exact h
+    · intro c hcq
+      obtain ⟨b', hb', ha', hx', h⟩ := hC c hcq
+      have : b' = b := hd b' hb' b hb ha' ha (hx'.trans hx.symm)
+      rw [← this]; exact h
+  · rintro ⟨b, hb, ha, hx, hm⟩
+    obtain ⟨hR, hC⟩ := (hper b hb ha).mpr hm
+    exact ⟨fun W hW => ⟨b, hb, ha, hx, hR W hW⟩, fun c hcq => ⟨b, hb, ha, hx, hC c hcq⟩⟩
+
+/-- the hypotheses of `block_search_exact_clean` are satisfiable: three committed blocks, indexed
+in the order 10, 9, 11, the last one refused by the block index; the query
+`a.n >= 5 AND block.height <= 10` (values 105 and 5: different digit counts) returns the heights
+in ascending order -/
+example :
+    let an : Str := [97, 46, 110]
+    let ev : Str → Event := fun v => { type := [97], attrs := [{ key := [110], value := v, index := true }] }
+    let bad : Event := { type := [98, 108, 111, 99, 107], attrs := [{ key := [104, 101, 105, 103, 104, 116], value := [49], index := false }] }
+    let b10 : Block := { height := 10, beginEvents := [ev [49, 48, 53]], endEvents := [], txs := [] }
+    let b9 : Block := { height := 9, beginEvents := [], endEvents := [ev [53]], txs := [] }
+    let b11 : Block := { height := 11, beginEvents := [ev [55], bad], endEvents := [], txs := [] }
+    let bs := [b10, b9, b11]
+    let q : Query := [{ key := an, op := .ge, operand := .int 5 },
+                      { key := BlockIndex.blockHeightKey, op := .le, operand := .int 10 }]
+    BlockIndex.DistinctHeights bs ∧ BlockIndex.CleanQueryB bs q ∧
+      BlockIndex.acceptable b11 = false ∧
+      BlockIndex.search (run (fun x => x) {} bs).bdb q = .heights [9, 10] := by
+  intro an ev bad b10 b9 b11 bs q
+  refine ⟨by unfold BlockIndex.DistinctHeights; decide, ?_, by decide, by decide⟩
+  have hrc : rangeConds q = q := by decide
+  have hne : an ≠ BlockIndex.blockHeightKey := by decide
+  have hcanon : ∀ b ∈ bs, BlockIndex.acceptable b = true → ∀ k, k = an ∨ k = BlockIndex.blockHeightKey →
+      ∀ v ∈ valuesOf (BlockIndex.attrsB b) k, ∃ m, m ≤ maxInt64 ∧ v = dec m := by
+    intro b hb ha k hk v hv
+    simp only [bs, List.mem_cons, List.not_mem_nil, or_false] at hb
+    rcases hb with rfl | rfl | rfl
+    · rcases hk with rfl | rfl
+      · have : valuesOf (BlockIndex.attrsB b10) an = [dec 105] := by decide
+        rw [this] at hv; simp at hv; exact ⟨105, by decide, hv⟩
+      · have : valuesOf (BlockIndex.attrsB b10) BlockIndex.blockHeightKey = [dec 10] := by decide
+        rw [this] at hv; simp at hv; exact ⟨10, by decide, hv⟩
+    · rcases hk with rfl | rfl
+      · have : valuesOf (BlockIndex.attrsB b9) an = [dec 5] := by decide
+        rw [this] at hv; simp at hv; exact ⟨5, by decide, hv⟩
+      · have : valuesOf (BlockIndex.attrsB b9) BlockIndex.blockHeightKey = [dec 9] := by decide
+        rw [this] at hv; simp at hv; exact ⟨9, by decide, hv⟩
+    · have : BlockIndex.acceptable b11 = false := by decide
+      rw [this] at ha; cases ha
+  refine ⟨by decide, ?_, ?_, ?_, ?_, ?_⟩
+  · intro c hc
+    simp only [q, List.mem_cons, List.not_mem_nil, or_false] at hc
+    rcases hc with rfl | rfl
+    · exact ⟨Or.inr (Or.inr (Or.inr (Or.inr ⟨rfl, 5, rfl, by decide, by intro h; cases h⟩))),
+        fun h => absurd h hne⟩
+    · exact ⟨Or.inr (Or.inr (Or.inr (Or.inr ⟨rfl, 10, rfl, by decide, by intro h; cases h⟩))),
+        fun _ => Or.inr rfl⟩
+  · intro k; rw [hrc]
+    have : (q.filter fun c => decide (c.key = k) && isLower c.op) =
+        (q.filter fun c => isLower c.op).filter (fun c => decide (c.key = k)) := by rw [List.filter_filter]
+    rw [this]
+    exact Nat.le_trans (List.length_filter_le _ _) (by decide)
+  · intro k; rw [hrc]
+    have : (q.filter fun c => decide (c.key = k) && isUpper c.op) =
+        (q.filter fun c => isUpper c.op).filter (fun c => decide (c.key = k)) := by rw [List.filter_filter]
+    rw [this]
+    exact Nat.le_trans (List.length_filter_le _ _) (by decide)
+  · intro c hc b hb ha n hn v hv
+    simp only [q, List.mem_cons, List.not_mem_nil, or_false] at hc
+    rcases hc with rfl | rfl
+    · exact hcanon b hb ha _ (Or.inl rfl) v hv
+    · exact hcanon b hb ha _ (Or.inr rfl) v hv
+  · intro k h2
+    rw [hrc] at h2
+    simp only [q, List.filter_cons, List.filter_nil] at h2
+    by_cases h1 : an = k
+    · have : ¬ BlockIndex.blockHeightKey = k := fun e => hne (h1.trans e.symm)
+      simp [h1, this] at h2
+    · by_cases h3 : BlockIndex.blockHeightKey = k
+      · simp [h1, h3] at h2
+      · simp [h1, h3] at h2
 
 end service
 
